@@ -232,6 +232,9 @@ func ErrClass(err error) string {
 			return strings.ReplaceAll(k, " ", "-")
 		}
 	}
+	if strings.HasPrefix(s, "opcua: ") {
+		return "service-decode-error" // body of a spliced / garbled message did not decode
+	}
 	return "other"
 }
 
